@@ -59,6 +59,11 @@ def run(ctx: Ctx):
               ' max(previous, new) atomically, so the send time of a call that ran'
               ' longer than the threshold cannot overwrite the heartbeats the worker'
               ' pushed meanwhile (R-C20-2)', c20.r2, min_instances=3)
+  ctx.include('R-C06-20', '"as long as one worker stays usable ... no lost work": only an ANSWERED call is proof of life — the client'
+              ' refreshes the recorded heartbeat with the send time of calls that completed WITHOUT an exception (R-C20-4). A'
+              ' call that merely finished (deadline exceeded, connection refused) must not renew it: a worker that is down'
+              ' from the start would be marked alive by its own failing probe, be handed shards, and every bounce would cost'
+              ' a unit of the retry budget until the run aborts', c20.r4, min_instances=3)
   ctx.include('R-C06-17', '"every output batch is delivered at least once" under retries: a retried'
               ' shard is defined afresh — the traced pipeline definition sent to the workers carries no'
               ' result caching, so a retry on the same worker does not resume a half-read one-shot data'
